@@ -53,6 +53,10 @@ def build():
         h.root('law_add_sub__' + p, g + '(a: %s, v: %s) -> %s' % (Tp, Tv, Tv), '(a + v) - a', ('value', b))
         h.root('law_sub_add__' + p, g + '(a: %s, q: %s) -> %s' % (Tp, Tp, Tp), 'a + (q - a)', ('value', b))
         h.root('law_roundtrip__' + p, g + '(a: %s) -> %s' % (Tp, Tp), '<%s as EuclideanSpace>::from_vec(a.to_vec())' % Tp, ('value', a))
+    for n, (P, comps) in PNT.items():
+        for p_ in ['usize', 'u8', 'u16', 'u32', 'u64', 'isize', 'i8', 'i16', 'i32', 'i64', 'f32', 'f64']:
+            for op in ('mul', 'div', 'rem'):
+                h.root('left_%s__%s__p%d' % (op, p_, n), '(a: %s, b: %s<%s>) -> %s<%s>' % (p_, P, p_, P, p_), 'a %s b' % OPS[op], ('left', op, n, p_))
     p3 = sv('a0', 3)
     v4 = sv('a0', 4)
     h.root('to_homogeneous', g + '(a: Point3<S>) -> Vector4<S>', 'a.to_homogeneous()', ('value', p3 + [ONE]))
@@ -111,7 +115,8 @@ def run(tier):
     mono = h.monomorphise(['i32', 'u8', 'f32', 'f64'], bound='<S: BaseNum>') if tier == 'thorough' else []
     S, inv, meta = facts.extract(PROP, h.src())
     report_dropped(run, meta)
-    run_specs(run, S, h, custom={'centroid': check_centroid})
+    from c17 import check_left
+    run_specs(run, S, h, custom={'centroid': check_centroid, 'left': check_left})
     run.floor('roots', len(run.roots), len(h.specs))
     if mono:
         run.notes['monomorphic_instantiations'] = {'types': ['i32', 'u8', 'f32', 'f64'], 'roots': len(mono)}
